@@ -266,10 +266,16 @@ Definition getitem (p : pulse) (k : key) : result pulse :=
 
 (* ------------------------------------------------------------------------------------------- *)
 (* __copy__ / __deepcopy__ over an abstract heap: an object is its __dict__ (attribute -> reference);
-   a cell holds an array payload or a dict of references (the _intermediates dict, the Basis with its
-   own attribute dict).  Mutation is assignment to a cell.                                        *)
+   a cell holds an array payload, a dict of references (the _intermediates dict), or an instance of an
+   ndarray subclass (payload + its own attribute dict: the Basis).  Mutation is assignment to a cell.
+   copy.deepcopy(value) re-allocates arrays and dicts recursively; for an ndarray subclass NumPy copies
+   the data and calls __array_finalize__(new, old), which re-binds the attributes to the SAME objects
+   (Basis.__array_finalize__: self.labels = getattr(basis, 'labels', ..)).                           *)
 Definition loc := nat.
-Inductive cell := CArr (payload : list num) | CDict (entries : list (string * loc)).
+Inductive cell :=
+| CArr (payload : list num)
+| CDict (entries : list (string * loc))
+| CSub (payload : list num) (attrs : list (string * loc)).
 Definition heap := list cell.                              (* reference = position *)
 Definition obj := list (string * loc).                     (* __dict__ *)
 
@@ -277,40 +283,47 @@ Definition hread (h : heap) (l : loc) : cell := nth l h (CArr []).
 Definition alloc (h : heap) (c : cell) : heap * loc := (h ++ [c], length h).
 Definition hwrite (h : heap) (l : loc) (c : cell) : heap := upd h l c.
 
-(* copy.deepcopy of one value with bounded nesting depth (fuel); every reachable cell is re-allocated *)
+(* copy every entry with the copier cp, threading the heap *)
+Fixpoint copy_entries (cp : heap -> loc -> heap * loc) (es : list (string * loc)) (h : heap) : heap * list (string * loc) :=
+  match es with
+  | [] => (h, [])
+  | kl :: r => let '(h1, l1) := cp h (snd kl) in
+               let '(h2, r') := copy_entries cp r h1 in
+               (h2, (fst kl, l1) :: r')
+  end.
+(* copy.deepcopy of one value, nesting depth bounded by fuel *)
 Fixpoint deepcopy_val (fuel : nat) (h : heap) (l : loc) : heap * loc :=
   match hread h l with
   | CArr a => alloc h (CArr a)
+  | CSub a attrs => alloc h (CSub a attrs)
   | CDict es =>
       match fuel with
       | O => alloc h (CDict es)
-      | S f =>
-          let '(h', es') := fold_left (fun acc kl =>
-                               let '(hh, done) := acc in
-                               let '(h2, l2) := deepcopy_val f hh (snd kl) in
-                               (h2, done ++ [(fst kl, l2)])) es (h, []) in
-          alloc h' (CDict es')
+      | S f => let '(h', es') := copy_entries (deepcopy_val f) es h in alloc h' (CDict es')
       end
   end.
 (* copied.__dict__.update({key: copy.deepcopy(val) for key, val in self.__dict__.items()}) *)
-Definition deepcopy_obj (fuel : nat) (h : heap) (o : obj) : heap * obj :=
-  fold_left (fun acc kl =>
-               let '(hh, done) := acc in
-               let '(h2, l2) := deepcopy_val fuel hh (snd kl) in
-               (h2, done ++ [(fst kl, l2)])) o (h, []).
+Definition deepcopy_obj (fuel : nat) (h : heap) (o : obj) : heap * obj := copy_entries (deepcopy_val fuel) o h.
 (* __copy__: the same references, except a new dict object for _intermediates (same entries) *)
-Definition copy_obj (h : heap) (o : obj) : heap * obj :=
-  fold_left (fun acc kl =>
-               let '(hh, done) := acc in
-               if String.eqb (fst kl) "_intermediates"
-               then let '(h2, l2) := alloc hh (hread hh (snd kl)) in (h2, done ++ [(fst kl, l2)])
-               else (hh, done ++ [kl])) o (h, []).
+Definition copy_attr (h : heap) (kl : string * loc) : heap * loc :=
+  if String.eqb (fst kl) "_intermediates" then alloc h (hread h (snd kl)) else (h, snd kl).
+Fixpoint copy_obj (h : heap) (o : obj) : heap * obj :=
+  match o with
+  | [] => (h, [])
+  | kl :: r => let '(h1, l1) := copy_attr h kl in
+               let '(h2, r') := copy_obj h1 r in
+               (h2, (fst kl, l1) :: r')
+  end.
 
 (* cells reachable from a reference / an object *)
 Fixpoint reach_val (fuel : nat) (h : heap) (l : loc) : list loc :=
-  l :: match hread h l, fuel with
-       | CDict es, S f => flat_map (fun kl => reach_val f h (snd kl)) es
-       | _, _ => []
+  l :: match fuel with
+       | O => []
+       | S f => match hread h l with
+                | CArr _ => []
+                | CDict es => flat_map (fun kl => reach_val f h (snd kl)) es
+                | CSub _ attrs => flat_map (fun kl => reach_val f h (snd kl)) attrs
+                end
        end.
 Definition reach_obj (fuel : nat) (h : heap) (o : obj) : list loc :=
   flat_map (fun kl => reach_val fuel h (snd kl)) o.
